@@ -29,9 +29,9 @@ DecoderConforms == pc = "done" => kw = Recs[tid].dec
 \* postcondition, also after a violation
 Verdict(k) == LET r == Recs[k]
                   w == EncStruct(r.mode, r.pol, r.c, r.val)
-              IN [tid |-> k, enc |-> (w = r.enc), dec |-> (DecStruct(r.c, w) = r.dec)]
+              IN [tid |-> k, enc |-> (w = r.enc), dec |-> (DecStruct(r.c, w) = r.dec), rt |-> (DecStruct(r.c, w) = r.val)]
 ExportVerdicts ==
     /\ TLCGet("stats").generated >= 0
     /\ ndJsonSerialize(IOEnv.VERDICTS_OUT,
-          SelectSeq([k \in 1..Len(Recs) |-> Verdict(k)], LAMBDA v : ~(v.enc /\ v.dec)))
+          SelectSeq([k \in 1..Len(Recs) |-> Verdict(k)], LAMBDA v : ~(v.enc /\ v.dec /\ v.rt)))
 =============================================================================
